@@ -1,9 +1,75 @@
 package main
 
 import (
+	"fmt"
+
+	"github.com/brocaar/lorawan"
 	"verifharness/internal/cases"
 	"verifharness/internal/cq"
+	"verifharness/internal/framefmt"
 )
 
-// frameCases: MHDR, FCtrl, FHDR, DLSettings, join payloads, CFList (added with the Frame model).
-func frameCases(s *cases.Set, r *cq.RNG, thorough bool) {}
+func payloadEnc(s *cases.Set, p lorawan.Payload, kind string) {
+	t := framefmt.Payload(p, 0)
+	o := cq.Err
+	func() {
+		defer func() {
+			if r := recover(); r != nil {
+				o = cq.Panic
+			}
+		}()
+		if b, err := p.MarshalBinary(); err == nil {
+			o = cq.Ok(cq.Bytes(b))
+		}
+	}()
+	s.Add(cases.Case{Term: fmt.Sprintf("CFrameEnc %s %s", t, o), Key: "frame-enc:" + t, Kind: kind, Nontrivial: true,
+		Replay: map[string]interface{}{"api": kind + " MarshalBinary", "value": t}})
+}
+
+// frameCases: MHDR, FCtrl, DLSettings (all 256 octets each), join / rejoin payloads, join-accept with both CFList kinds.
+func frameCases(s *cases.Set, r *cq.RNG, thorough bool) {
+	for v := 0; v < 256; v++ {
+		b := byte(v)
+		var h lorawan.MHDR
+		_ = h.UnmarshalBinary([]byte{b})
+		re, _ := h.MarshalBinary()
+		s.Add(cases.Case{Term: fmt.Sprintf("CMhdr %d %d %d %d", b, byte(h.MType), byte(h.Major), re[0]), Key: fmt.Sprintf("mhdr:%02x", b), Kind: "mhdr", Nontrivial: true,
+			Replay: map[string]interface{}{"api": "MHDR.UnmarshalBinary/MarshalBinary", "byte": b}})
+		var c lorawan.FCtrl
+		_ = c.UnmarshalBinary([]byte{b})
+		// re-encode through an FHDR so that FOptsLen is set the official way
+		fh := lorawan.FHDR{FCtrl: c}
+		if n := int(b & 0x0f); n > 0 {
+			fh.FOpts = []lorawan.Payload{&lorawan.DataPayload{Bytes: make([]byte, n)}}
+		}
+		ro := cq.Err
+		if fb, err := fh.MarshalBinary(); err == nil {
+			ro = cq.Ok(fmt.Sprintf("%d", fb[4]))
+		}
+		s.Add(cases.Case{Term: fmt.Sprintf("CFctrl %d %s %s", b, framefmt.FCtrl(c, int(b&0x0f)), ro), Key: fmt.Sprintf("fctrl:%02x", b), Kind: "fctrl", Nontrivial: true,
+			Replay: map[string]interface{}{"api": "FCtrl.UnmarshalBinary / FHDR.MarshalBinary", "byte": b}})
+		var d lorawan.DLSettings
+		_ = d.UnmarshalBinary([]byte{b})
+		do := cq.Err
+		if db, err := d.MarshalBinary(); err == nil {
+			do = cq.Ok(fmt.Sprintf("%d", db[0]))
+		}
+		s.Add(cases.Case{Term: fmt.Sprintf("CDlSettings %d %s %d %d %s", b, cq.Bool(d.OptNeg), d.RX2DataRate, d.RX1DROffset, do), Key: fmt.Sprintf("dlsettings:%02x", b), Kind: "dlsettings", Nontrivial: true,
+			Replay: map[string]interface{}{"api": "DLSettings.UnmarshalBinary/MarshalBinary", "byte": b}})
+	}
+	s.Exhaustive("MHDR, FCtrl and DLSettings: all 256 octets each")
+	n := 60
+	if thorough {
+		n = 2500
+	}
+	for i := 0; i < n; i++ {
+		for k := 0; k < 5; k++ {
+			p := framefmt.JoinFrame(r, k)
+			payloadEnc(s, p.MACPayload, fmt.Sprintf("join-payload-kind%d", k))
+		}
+		// join-accepts with every CFList shape
+		ja := framefmt.JoinFrame(r, 1).MACPayload.(*lorawan.JoinAcceptPayload)
+		ja.CFList = framefmt.RandomCFList(r)
+		payloadEnc(s, ja, "join-accept-cflist")
+	}
+}
